@@ -182,3 +182,90 @@ Definition decode_pair (ft : features) (stream : bytes)
   | (_, c1) => (None, c1)
   end.
 End Cached.
+
+(* ---- specification side of the tablet payload: tuple<bigint, bigint, list<tuple<uuid, int>>> as the
+   CQL value encoding (native_protocol_v4.spec §6: every tuple element and list element is a [bytes]) *)
+Definition enc_replica (r : bytes * N) : bytes :=
+  enc_bytes (enc_bytes (fst r) ++ enc_bytes (enc_signed 4 (Z.of_N (snd r)))).
+Definition enc_tablet (first last : Z) (reps : list (bytes * N)) : bytes :=
+  enc_bytes (enc_signed 8 first) ++ enc_bytes (enc_signed 8 last)
+  ++ enc_bytes (enc_int (Z.of_N (lenN reps)) ++ flat_map enc_replica reps).
+Definition wf_tablet (first last : Z) (reps : list (bytes * N)) : Prop :=
+  (- 2 ^ 63 <= first < last)%Z /\ (last < 2 ^ 63)%Z /\ lenN reps < 2 ^ 25 /\
+  Forall (fun r => bytes_ok (fst r) /\ lenN (fst r) = 16 /\ snd r < 2 ^ 31) reps.
+
+(* ---- typed decode of a raw cell / row / page (contents, not only success): Option<CqlValue> per column *)
+Definition typed_cell (t : coltype) (raw : cell) : Cql.dres Cql.cell :=
+  match raw with
+  | None => Ok Cql.CNull
+  | Some s => match Cql.deser_value (to_ctype t) s with Ok v => Ok (Cql.CVal v) | Err e => Err e end
+  end.
+Fixpoint typed_row (cols : list colspec) (row : list cell) : Cql.dres (list Cql.cell) :=
+  match cols, row with
+  | c :: cs, x :: r =>
+    match typed_cell (cs_type c) x with
+    | Ok v => match typed_row cs r with Ok l => Ok (v :: l) | Err e => Err e end
+    | Err e => Err e
+    end
+  | _, _ => Ok []
+  end.
+
+(* ---- typed row targets other than Row: tuples of typed columns (DeserializeRow for (T1, .., Tn)) ----- *)
+(* the targets the tie tries, in this order; the first whose type_check accepts the column types:
+     1 (Option<i32>,)   2 (Option<i64>, Option<String>)   3 (Option<Vec<u8>>,)   4 (Option<bool>,)
+     5 (Option<Vec<Option<i32>>>,)                        (type_check: exact column count, exact types) *)
+Definition is_nat (t : coltype) (n : native) : bool :=
+  match t with TNative m => N.eqb (id_of_native m) (id_of_native n) | _ => false end.
+Definition tuple_target (cols : list colspec) : N :=
+  match List.map cs_type cols with
+  | [t] =>
+    if is_nat t Int then 1 else if is_nat t Blob then 3 else if is_nat t Boolean then 4
+    else match t with
+         | TList _ e | TSet _ e => if is_nat e Int then 5 else 0
+         | _ => 0
+         end
+  | [a; b] => if is_nat a BigInt && (is_nat b Text || is_nat b Ascii) then 2 else 0
+  | _ => 0
+  end.
+Definition fixed_ok (k : nat) (raw : cell) : bool :=
+  match raw with None => true | Some s => (List.length s =? k)%nat end.
+Fixpoint int_items (fuel : nat) (n : N) (b : bytes) : bool :=
+  if n =? 0 then true
+  else match fuel with
+       | O => false
+       | S f => match read_cql_bytes b with
+                | None => false
+                | Some (None, r) => int_items f (n - 1) r
+                | Some (Some e, r) => (List.length e =? 4)%nat && int_items f (n - 1) r
+                end
+       end.
+(* does the typed target accept the cell (Option<T>: null is fine; T itself as in value.rs) *)
+Definition tuple_cell_ok (target : N) (pos : nat) (t : coltype) (raw : cell) : bool :=
+  if target =? 1 then fixed_ok 4 raw
+  else if target =? 2 then
+    match pos with
+    | O => fixed_ok 8 raw
+    | _ => match raw with
+           | None => true
+           | Some s => (if is_nat t Ascii then forallb (fun x => x <? 128) s else true) && utf8_valid s
+           end
+    end
+  else if target =? 3 then true
+  else if target =? 4 then fixed_ok 1 raw
+  else match raw with
+       | None => true
+       | Some s => match run read_int_length s with
+                   | Ok (n, r) => int_items (S (List.length r)) n r
+                   | Err _ => false
+                   end
+       end.
+Fixpoint tuple_row_ok (target : N) (pos : nat) (cols : list colspec) (row : list cell) : bool :=
+  match cols, row with
+  | c :: cs, x :: r => tuple_cell_ok target pos (cs_type c) x && tuple_row_ok target (S pos) cs r
+  | _, _ => true
+  end.
+Fixpoint tuple_rows_first_error (target : N) (cols : list colspec) (rows : list (list cell)) (i : N) : option N :=
+  match rows with
+  | [] => None
+  | r :: rs => if tuple_row_ok target O cols r then tuple_rows_first_error target cols rs (i + 1) else Some i
+  end.
